@@ -239,7 +239,8 @@ BeginWrite ==
           /\ ei' = ei + 1 /\ UNCHANGED << ph, rd, nrec, bnd, dec >>
      ELSE /\ verdict' = verdict \cup Tag(SulClauses(E.file.bytes, FileCfg(E))
                  \cup (IF HighLevel THEN FlagClause(hcm.flag) ELSE {})
-                 \cup (IF HighLevel /\ E.claim.mustraise # "" THEN {"C12.MustRaise"} ELSE {})
+                 \* (unless the unrepresentable input was already refused by the add_* call that carried it)
+                 \cup (IF HighLevel /\ E.claim.mustraise # "" /\ E.fid \notin rej THEN {"C12.MustRaise"} ELSE {})
                  \cup (IF HighLevel /\ hcm.flag /\ FileOf(E.fid).allhc
                           /\ (E.claim.hc_breach # "" \/ CanonBreach(E.fid) \/ DataBreach(E)) THEN {"C17.BreachWritten"} ELSE {}), ei)
           /\ ph' = "vr" /\ rd' = ReaderInit /\ nrec' = 0 /\ bnd' = {80} /\ dec' = << >> /\ UNCHANGED ei
